@@ -78,4 +78,66 @@ Qed.
 Theorem no_name_is_declared_twice m : In m D -> duplicate_decls m = [].
 Proof. intros Hm. exact (proj2 (proj2 (parts m Hm))). Qed.
 
+(* an always block (clocked or combinational) reads and writes declared identifiers only, and what it
+   assigns are variables (reg / integer), never nets *)
+Theorem always_blocks_are_well_formed m sn body x : In m D -> In (IAlways sn body) (m_items m) ->
+  (In x (stmt_reads body ++ stmt_writes body) -> declared (items_decls 50 (m_items m)) x = true) /\
+  (In x (stmt_writes body) -> is_var (items_decls 50 (m_items m)) x = true).
+Proof.
+  intros Hm Hit. pose proof (item_clean m _ Hm Hit) as E. unfold lint_item in E.
+  apply app_eq_nil in E. destruct E as [E1 E2].
+  assert (Hd : In x (stmt_reads body ++ stmt_writes body) -> declared (items_decls 50 (m_items m)) x = true).
+  { intros Hx. unfold undeclared_in in E1.
+    assert (Hx' : In x (match sn with SEdges l => flat_map (fun p => expr_ids (snd p)) l | _ => [] end ++ stmt_reads body ++ stmt_writes body))
+      by (apply in_or_app; right; exact Hx).
+    pose proof (flat_map_nil _ _ E1 x Hx') as Ex. cbv beta in Ex. unfold mem in Ex. cbn [existsb] in Ex. rewrite orb_false_r in Ex.
+    destruct (declared _ x); [reflexivity|discriminate]. }
+  split; [exact Hd|]. intros Hx.
+  assert (Hn : In x (nodup Pos.eq_dec (stmt_writes body))) by (apply nodup_In; exact Hx).
+  pose proof (flat_map_nil _ _ E2 x Hn) as Ex. cbv beta in Ex.
+  rewrite (Hd (in_or_app _ _ x (or_intror Hx))) in Ex. unfold mem in Ex. cbn [existsb] in Ex.
+  destruct (is_var _ x); [reflexivity|]. cbn in Ex. discriminate.
+Qed.
+
+(* the sensitivity list of a clocked block names declared signals *)
+Theorem clocks_are_declared m l body x : In m D -> In (IAlways (SEdges l) body) (m_items m) ->
+  In x (flat_map (fun p => expr_ids (snd p)) l) -> declared (items_decls 50 (m_items m)) x = true.
+Proof.
+  intros Hm Hit Hx. pose proof (item_clean m _ Hm Hit) as E. unfold lint_item in E.
+  apply app_eq_nil in E. destruct E as [E1 _]. unfold undeclared_in in E1.
+  pose proof (flat_map_nil _ _ E1 x (in_or_app _ _ x (or_introl Hx))) as Ex. cbv beta in Ex.
+  unfold mem in Ex. cbn [existsb] in Ex. rewrite orb_false_r in Ex. destruct (declared _ x); [reflexivity|discriminate].
+Qed.
+
+(* no variable is assigned from two always blocks *)
+Lemma multi_nil : forall blocks seen, multi seen blocks = [] ->
+  (forall b x, In b blocks -> In x b -> ~ In x seen) /\
+  (forall pre b1 mid b2 post x, blocks = pre ++ b1 :: mid ++ b2 :: post -> In x b1 -> In x b2 -> False).
+Proof.
+  induction blocks as [|b rest IH]; intros seen H.
+  - split; [intros b x []|]. intros pre b1 mid b2 post x E. destruct pre; discriminate.
+  - simpl in H. apply app_eq_nil in H. destruct H as [H1 H2]. destruct (IH (b ++ seen) H2) as [I1 I2].
+    assert (Hb : forall x, In x b -> ~ In x seen).
+    { intros x Hx Hs. assert (Hf : In x (filter (fun x => mem x seen) b)).
+      { apply filter_In. split; [exact Hx|]. unfold mem. apply existsb_exists. exists x. split; [exact Hs|apply Pos.eqb_refl]. }
+      rewrite H1 in Hf. exact Hf. }
+    split.
+    + intros b0 x [<-|Hb0] Hx; [apply Hb; exact Hx|]. intros Hs. apply (I1 b0 x Hb0 Hx). apply in_or_app. right. exact Hs.
+    + intros pre b1 mid b2 post x E Hx1 Hx2. destruct pre as [|p pre]; simpl in E; injection E as E1 E2.
+      * subst b1 rest. apply (I1 b2 x); [apply in_or_app; right; left; reflexivity|exact Hx2|apply in_or_app; left; exact Hx1].
+      * subst p rest. eapply I2; eauto.
+Qed.
+
+Theorem no_variable_is_assigned_from_two_always_blocks m pre b1 mid b2 post x : In m D ->
+  always_writes 50 (m_items m) = pre ++ b1 :: mid ++ b2 :: post -> In x b1 -> In x b2 -> False.
+Proof.
+  intros Hm E. pose proof (module_clean m Hm) as C. unfold lint_module in C.
+  apply app_eq_nil in C. destruct C as [_ C]. apply app_eq_nil in C. destruct C as [_ C]. apply app_eq_nil in C. destruct C as [C _].
+  apply map_eq_nil in C.
+  assert (Hmulti : multi [] (always_writes 50 (m_items m)) = []).
+  { destruct (multi [] (always_writes 50 (m_items m))) as [|y l] eqn:Em; [reflexivity|].
+    exfalso. assert (Hy : In y (nodup Pos.eq_dec (y :: l))) by (apply nodup_In; left; reflexivity). rewrite C in Hy. exact Hy. }
+  destruct (multi_nil _ _ Hmulti) as [_ H2]. exact (H2 pre b1 mid b2 post x E).
+Qed.
+
 End Clean.
